@@ -1,4 +1,4 @@
 From Coq Require Import ExtrOcamlBasic NArith List.
 From LV Require Import lib.Conv model.CachedProducer spec.CachedProducerSpec.
 Extraction "model.ml" conv_roots wrap wrap_all wrap_old cstep dead trace_ok by_name_op
-  open_overlap newest_handle handles alookup conc_ok.
+  open_overlap newest_handle handles alookup conc_ok group_apply cview0.
